@@ -99,6 +99,35 @@ def mem_hook(P, extra=None):
                     i = t.find(bytes([c]))
                     return 0 if i < 0 else sp + i
                 return None
+            if n in ("strcspn", "strspn"):
+                sp = evalx(normx(a[0]), e_, P)
+                if isinstance(sp, int) and not isinstance(sp, bool):
+                    t = mem_str(e_, sp)
+                    st = evalx(normx(a[1]), e_, P)
+                    if t is None or not isinstance(st, PStr):
+                        return "impure"
+                    k = 0
+                    for ch in t:
+                        if (ch in st.text()) != (n == "strspn"):
+                            break
+                        k += 1
+                    return k
+                return None
+            if n in ("strncmp", "strcmp"):
+                def txt(x):
+                    v = evalx(normx(x), e_, P)
+                    if isinstance(v, PStr):
+                        return v.text()
+                    if isinstance(v, int) and not isinstance(v, bool):
+                        return mem_str(e_, v)
+                    return None
+                a0, a1 = txt(a[0]), txt(a[1])
+                if a0 is None or a1 is None:
+                    return "impure"
+                if n == "strncmp":
+                    k = evalx(normx(a[2]), e_, P)
+                    a0, a1 = a0[:k], a1[:k]
+                return (a0 > a1) - (a0 < a1)
             if n == "evutil_inet_pton":
                 return 1
             if n in ("event_warn", "event_warnx", "event_debugx_"):
